@@ -3,7 +3,8 @@
   Every theorem is about the model instantiated with the facts regenerated from /repo
   (`Generated.facts06`, `Generated.facts08`); side conditions by `decide`.
 -/
-import Proofs.SchemaCompile
+import Proofs.SchemaDocs
+import Proofs.SchemaAttr
 import SpyneModel.Generated.Facts01
 import Props.Facts08Good
 import SpyneModel.Generated.Facts06
@@ -28,19 +29,22 @@ theorem facts06_good : facts06.Good where
   bytes := fun e => by cases e <;> decide
   qualified := by decide
 
-/-- **emitted_valid.** For every well-formed application, every registered class (message classes
-    included), every protocol configuration (`polymorphic` on or off) and every instance that
+/-- **emitted_valid.** For every well-formed application whose inheritance chains stay within one
+    namespace (`sameNsChains`: the encoder model, build-XML's, writes every member of an instance in
+    the namespace of the instance's class; chains that cross namespaces are covered by
+    `generated_schema_denotes` on the schema side and by T2/T3 on the real encoder), every registered
+    class (message classes included), every protocol configuration (`polymorphic` on or off) and every instance that
     satisfies the declared constraints — `conformsOne`, and at every leaf `leafCond`: the value has an
     XSD literal and is one of the declared `values` if the member declares any — the document the XML
     encoder writes is valid against the schema generated for the application. -/
 theorem emitted_valid (I : Iface) (ek : List (List Text × Key)) (vals : List (PrimTy × List Val))
-    (hwf : (app I ek vals).wf = true) (cfg : Cfg)
+    (hwf : (app I ek vals).wf = true) (hsn : (app I ek vals).sameNsChains = true) (cfg : Cfg)
     (C : ClassDef) (hC : C ∈ I.classes) (vs : List (Text × Val))
     (hc : conformsOne (ClassDef.toTy C) (.obj C.name vs) = true)
     (hr : leavesOne (leafCond (app I ek vals)) (ClassDef.toTy C) (.obj C.name vs) = true) :
     ∃ x, encode facts08 cfg I C.ns C.name (ClassDef.toTy C) (.obj C.name vs) = [x] ∧
       (gen (app I ek vals)).valid x = true :=
-  emitted_valid_gen (app I ek vals) facts08_good hwf cfg C hC vs hc hr
+  emitted_valid_gen (app I ek vals) facts08_good hwf hsn cfg C hC vs hc hr
 
 /-- **enumeration literals.** Every `<xs:enumeration value=…>` the generator writes for a declared
     value is the literal the XML protocol puts on the wire for that value (`leafToText`), lies in the
@@ -51,16 +55,27 @@ theorem enumeration_literals_legal (I : Iface) (ek : List (List Text × Key)) (v
     simpleDefOk { base := builtinOf p, facets := primFacetsA (app I ek vals) p } = true :=
   ⟨rfl, prim_def_legalA (app I ek vals) facts08_good hv p hw⟩
 
-/-- **schema = denotation.** On a well-formed application the reference validator run on the
-    generated schema decides exactly validity for the type the class denotes: every reference of
-    the generated documents resolves to the definition generated for it, base chains are followed to
-    the root, restrictions carry the declared facets. -/
+/-- **schema = denotation.** On a well-formed application — any number of namespaces, inheritance
+    chains within or across namespaces — the reference validator run on the generated set of
+    documents decides exactly validity for the type the class denotes (`denoteG`: every member is an
+    element in the namespace of the class that DECLARES it, an inherited member in its ancestor's):
+    every reference of the generated documents resolves to the definition generated for it, base
+    chains are followed to the root through `<xs:extension base=…>` into other documents,
+    restrictions carry the declared facets. -/
 theorem generated_schema_denotes (I : Iface) (ek : List (List Text × Key)) (vals : List (PrimTy × List Val))
     (hwf : (app I ek vals).wf = true)
     (C : ClassDef) (hC : C ∈ I.classes) (x : Node) (hkey : nodeKey x = (C.ns, C.name)) :
+    (gen (app I ek vals)).valid x = validS (denoteG (app I ek vals) C.ns (ClassDef.toTy C)) false x :=
+  valid_gen (app I ek vals) hwf C hC x hkey
+
+/-- on same-namespace chains the denotation is the one the encoder theorem is stated against: all
+    members of a class in the class's namespace -/
+theorem generated_schema_denotes_same_ns (I : Iface) (ek : List (List Text × Key)) (vals : List (PrimTy × List Val))
+    (hwf : (app I ek vals).wf = true) (hsn : (app I ek vals).sameNsChains = true)
+    (C : ClassDef) (hC : C ∈ I.classes) (x : Node) (hkey : nodeKey x = (C.ns, C.name)) :
     (gen (app I ek vals)).valid x =
       validS (denote (primFacetsA (app I ek vals)) I.tns C.ns (ClassDef.toTy C)) false x :=
-  valid_gen (app I ek vals) hwf C hC x hkey
+  valid_gen_same (app I ek vals) hwf hsn C hC x hkey
 
 /-- every conformant leaf value is written as a literal of the simple type the schema declares for
     it: lexical space of the XSD built-in and every generated facet -/
@@ -80,12 +95,12 @@ theorem leaf_literal_valid (I : Iface) (ek : List (List Text × Key)) (vals : Li
     (Stated for applications without `values` on non-string primitives: the soft decoder model is
     build-XML's and has no such facet; T3 compares the two real validators on enumerated members.) -/
 theorem lxml_soft_agree (I : Iface) (ek : List (List Text × Key)) (hwf : (app I ek).wf = true)
-    (C : ClassDef) (hC : C ∈ I.classes) (ns name : Text) (text : Option Text) (children : List Node)
+    (hsn : (app I ek).sameNsChains = true) (C : ClassDef) (hC : C ∈ I.classes) (ns name : Text) (text : Option Text) (children : List Node)
     (hkey : (ns, name) = (C.ns, C.name))
     (hcf : commonForm facts08 factsXml I.tns C.ns (ClassDef.toTy C) (.elem ns name [] text children) = true) :
     (gen (app I ek)).valid (.elem ns name [] text children) =
       softAccepts facts08 factsXml I (ClassDef.toTy C) (.elem ns name [] text children) :=
-  lxml_soft_agree_gen facts08 factsXml (app I ek) hwf rfl C hC ns name text children hkey hcf
+  lxml_soft_agree_gen facts08 factsXml (app I ek) hwf hsn rfl C hC ns name text children hkey hcf
 
 /-! ### the schema compiles -/
 
@@ -95,10 +110,68 @@ theorem lxml_soft_agree (I : Iface) (ek : List (List Text × Key)) (hwf : (app I
     libxml2 applies to this subset: names unique per symbol space, simple and complex names disjoint,
     every restriction step legal, every complexType legal (base visible + complex, chain finite,
     member types resolve to visible components, occurrence bounds ordered, deterministic content
-    model), every global element resolves. -/
+    model), every global element resolves, every `<xs:import>` names a namespace that has a document
+    of the set. -/
 theorem gen_compiles (I : Iface) (ek : List (List Text × Key)) (vals : List (PrimTy × List Val))
     (hwf : (app I ek vals).wf = true) : (gen (app I ek vals)).compiles = true :=
   Schema.gen_compiles (app I ek vals) facts08_good hwf
+
+/-- **the set of documents.** One document per namespace in use; the `<xs:import>` elements of a
+    document are exactly its namespace's imports, in `sorted` order (fixes/C07-01); every import
+    names a namespace that has a document. -/
+theorem documents_and_imports (I : Iface) (ek : List (List Text × Key)) (vals : List (PrimTy × List Val))
+    (hwf : (app I ek vals).wf = true) (ns : Text) :
+    List.Pairwise (fun a b => textLe a b = true) ((gen (app I ek vals)).doc ns).imports ∧
+    (∀ n, n ∈ ((gen (app I ek vals)).doc ns).imports ↔ (ns, n) ∈ (gen (app I ek vals)).imports) ∧
+    (∀ n, n ∈ ((gen (app I ek vals)).doc ns).imports → n ∈ (gen (app I ek vals)).docNs) := by
+  refine ⟨(doc_imports _ ns).1, (doc_imports _ ns).2, ?_⟩
+  intro n hn
+  have h := imports_have_docs (app I ek vals) hwf
+  unfold Schema.importsHaveDocs at h
+  exact List.contains_iff_mem.mp ((List.all_eq_true.mp h) (ns, n) (((doc_imports _ ns).2 n).mp hn))
+
+/-- **no dangling QName.** With the interface's prefixes (one per namespace in use, no prefix
+    shared), every `type=` / `base=` of the generated documents reads back — through the `xmlns`
+    declarations every document carries — as the name meant; that name is defined in the set; and it
+    lives in the referring document's namespace or in one the document imports, which has a document. -/
+theorem no_dangling_qname (I : Iface) (ek : List (List Text × Key)) (vals : List (PrimTy × List Val))
+    (hwf : (app I ek vals).wf = true) (pm : PrefMap) (hp : prefixesOk pm (gen (app I ek vals)) = true) :
+    ∀ r ∈ (gen (app I ek vals)).namedRefs,
+      (∃ q, qnameOf pm r.2 = some q ∧ resolveQ pm q = some r.2) ∧
+      ((gen (app I ek vals)).hasSimple r.2 || (gen (app I ek vals)).hasComplex r.2) = true ∧
+      (r.2.1 = r.1 ∨ r.2.1 ∈ ((gen (app I ek vals)).doc r.1).imports) ∧ r.2.1 ∈ (gen (app I ek vals)).docNs :=
+  Schema.no_dangling_qname _ (Schema.gen_compiles (app I ek vals) facts08_good hwf) pm hp
+
+/-! ### member kinds: XmlAttribute, XmlData, xml_choice_group -/
+
+/-- an application whose classes have attribute / data members (build-XML's `IfaceA`) and choice
+    groups, with the measured generator facts -/
+def appA (I : IfaceA) (enumKeys : List (List Text × Key)) (vals : List (PrimTy × List Val))
+    (modNs : List (Text × Text)) (choice : List ((Key × Text) × Text)) : AppA :=
+  { facts := facts06, leaf := facts08, iface := I, enumKeys := enumKeys, values := vals, modNs := modNs, choice := choice }
+
+/-- **gen_compiles with member kinds.** For every well-formed application with `XmlAttribute`
+    members (own and inherited through `<xs:extension>`, plain or customised types, `use`), an
+    `XmlData` member (`<xs:simpleContent>`) and `xml_choice_group`s, the extended set of documents
+    compiles: the element part as in `gen_compiles`; the simple types of customised attribute /
+    data members legal, uniquely named and not clashing with a complexType; every `type=` of an
+    attribute and every simpleContent `base=` a visible, defined simple type; own and inherited
+    attribute names distinct; a simple-content class without element content, base or extension;
+    the namespaces imported for such members have documents. Needs the generator to define the type
+    of a customised XmlData member (`dataTypeDefined`, measured by T1; fixes/C06-04). -/
+theorem gen_compiles_member_kinds (I : IfaceA) (ek : List (List Text × Key)) (vals : List (PrimTy × List Val))
+    (mn : List (Text × Text)) (ch : List ((Key × Text) × Text))
+    (hdt : facts06.dataTypeDefined = true) (hwf : (appA I ek vals mn ch).wf = true) :
+    (genA (appA I ek vals mn ch)).compiles = true :=
+  genA_compiles (appA I ek vals mn ch) facts08_good hdt hwf
+
+/-- **the member-kind layer is conservative.** For an application without attribute, data or choice
+    members the extended reference validator on the extended documents is `(gen A).valid`: the
+    theorems above (`emitted_valid`, `generated_schema_denotes`, `lxml_soft_agree`) are statements
+    about the extended layer too. -/
+theorem member_kinds_conservative (I : Iface) (ek : List (List Text × Key)) (vals : List (PrimTy × List Val)) (x : Node) :
+    (genA (AppA.ofApp (app I ek vals))).valid x = (gen (app I ek vals)).valid x :=
+  genA_ofApp_valid (app I ek vals) x
 
 /-- every class (message classes included) of a well-formed application gets a complexType
     definition that passes libxml2's checks, and a global element that resolves -/
@@ -154,7 +227,20 @@ open SpyneModel.Schema.Example in
 example : (gen (app iface [])).compiles = true := by decide +kernel
 
 open SpyneModel.Schema.Example in
+example : (app iface []).sameNsChains = true := by decide +kernel
+
+open SpyneModel.Schema.Example in
 example : cMsg ∈ iface.classes := by simp [iface]
+
+/-- a chain that crosses namespaces (`urn:b`:Base ⊂ `urn:a`:Derived): well-formed, not same-namespace,
+    the set compiles, `urn:a` imports `urn:b`, the prefixes are fine, the inherited member is accepted
+    in its declaring class's namespace only -/
+example : (app ExampleX.iface []).wf = true ∧ (app ExampleX.iface []).sameNsChains = false ∧
+    (gen (app ExampleX.iface [])).compiles = true ∧
+    ((gen (app ExampleX.iface [])).doc (Example.T "urn:a")).imports = [Example.T "urn:b", Example.T "urn:t"] ∧
+    prefixesOk ExampleX.pm (gen (app ExampleX.iface [])) = true ∧
+    (gen (app ExampleX.iface [])).valid ExampleX.goodDoc = true ∧
+    (gen (app ExampleX.iface [])).valid ExampleX.wrongNsDoc = false := by decide +kernel
 
 open SpyneModel.Schema.Example in
 example : conformsOne (ClassDef.toTy cMsg) (.obj cMsg.name value) = true := value_conforms
@@ -181,5 +267,23 @@ open SpyneModel.Schema.Example in
 example : commonForm facts08 factsXml iface.tns cMsg.ns (ClassDef.toTy cMsg) goodDoc = true ∧
     commonForm facts08 factsXml iface.tns cMsg.ns (ClassDef.toTy cMsg) badDoc = true ∧
     (gen (app iface [])).valid goodDoc = true ∧ (gen (app iface [])).valid badDoc = false := by decide +kernel
+
+/-! ### non-vacuity: attributes (inherited, required, customised), simple content, a choice -/
+
+open SpyneModel.Schema.ExampleA in
+example : (appA iface [] [] modNs choice).wf = true ∧ (genA (appA iface [] [] modNs choice)).compiles = true ∧
+    (genA (appA iface [] [] modNs choice)).ximports = [(Example.T "urn:a", Example.T "spyne.model.primitive.string")] := by
+  decide +kernel
+
+open SpyneModel.Schema.ExampleA in
+/-- accepted with its attributes; rejected without the required one, with both alternatives of the
+    choice, with a too long customised attribute, with non-byte simple content, with an undeclared
+    attribute -/
+example : (genA (appA iface [] [] modNs choice)).valid good = true ∧
+    (genA (appA iface [] [] modNs choice)).valid noCur = false ∧
+    (genA (appA iface [] [] modNs choice)).valid both = false ∧
+    (genA (appA iface [] [] modNs choice)).valid longVer = false ∧
+    (genA (appA iface [] [] modNs choice)).valid badData = false ∧
+    (genA (appA iface [] [] modNs choice)).valid undeclared = false := by decide +kernel
 
 end SpyneModel.Props.C06
